@@ -205,35 +205,3 @@ Theorem parser_operator_to_biscuit_named :
                     match assoc n parser_operator_to_biscuit with Some _ => true | None => false end)
           parser_op_names = true.
 Proof. vm_compute. repeat split. Qed.
-
-(* ---- C11(c): the channel skeleton that Model/ChanLTS.v abstracts ----
-   the result channel of World.Run is buffered (capacity 1), the combination
-   channel is unbuffered, and EVERY send on the combination channel sits in a
-   select that can also take the stop signal; the only other sends are on the
-   buffered result channel *)
-Fixpoint has_prefix_s (p s : string) : bool :=
-  match p, s with
-  | EmptyString, _ => true
-  | String a p', String b s' => Ascii.eqb a b && has_prefix_s p' s'
-  | _, EmptyString => false
-  end.
-Definition channel_protocol_stmt : Prop :=
-  assoc "Run:done" dl_chan_makes = Some "1" /\
-  assoc "combine:c" dl_chan_makes = Some "0" /\
-  forallb (fun p => if String.eqb (fst p) "combine:c" then has_prefix_s "select:recv " (snd p) else true)
-          dl_chan_sends = true /\
-  forallb (fun p => String.eqb (fst p) "combine:c" || String.eqb (fst p) "Run:done") dl_chan_sends = true /\
-  existsb (fun p => String.eqb (fst p) "combine:c") dl_chan_sends = true.
-Theorem channel_protocol_pinned : channel_protocol_stmt.
-Proof. vm_compute. repeat split. Qed.
-
-(* ---- C19: no method of *Biscuit, and no use of the authorizer's token, assigns,
-   appends, copies or calls a mutating table/world method through the shared token ---- *)
-Theorem no_shared_write_sites : shared_write_sites = [].
-Proof. reflexivity. Qed.
-
-(* ---- C19: no function of the library (root package, datalog, parser; init functions apart)
-   assigns to, increments, deletes from or copies into a package-level variable: goroutines
-   that share only a token do not share hidden package state (caches, counters) either ---- *)
-Theorem no_package_state_writes : pkg_state_write_sites = [].
-Proof. reflexivity. Qed.
